@@ -50,6 +50,13 @@ pub fn c16_alphabet() -> C16Alphabet {
             ids.push(format!("DEFCAL {m}X {q}"));
         }
     }
+    // a two-parameter gate: variable and literal parameters in both orders (a literal after a
+    // variable must still be compared with the gate's parameter at the same position)
+    for ps in ["%a,%b", "%a,0.5", "%a,0.25", "0.25,%b", "0.5,%b", "0.25,0.5", "0.5,0.5", "0.25,0.25"] {
+        for q in ["0", "q"] {
+            ids.push(format!("DEFCAL U2({ps}) {q}"));
+        }
+    }
     let n_gate_ids = ids.len();
     for n in ["", "!mid"] {
         for q in ["0", "1", "q"] {
@@ -71,6 +78,11 @@ pub fn c16_alphabet() -> C16Alphabet {
     for m in ["DAGGER ", "DAGGER CONTROLLED ", "CONTROLLED DAGGER ", "FORKED "] {
         for q in &query_qubits {
             queries.push(format!("{m}X {q}"));
+        }
+    }
+    for ps in ["0.25,0.5", "0.5,0.25", "0.25,0.25", "0.5,0.5", "%x,0.5", "0.25,%y"] {
+        for q in ["0", "1", "v"] {
+            queries.push(format!("U2({ps}) {q}"));
         }
     }
     for n in ["", "!mid"] {
@@ -165,6 +177,30 @@ fn c16_derive_header(rng: &mut Rng, query: &str) -> String {
     let head = if let Some(open) = head.find('(') {
         let name = &head[..open];
         let p = &head[open + 1..head.len() - 1];
+        if p.contains(',') {
+            // several parameters: generalise / keep / change each one independently
+            let parts: Vec<String> = p
+                .split(',')
+                .enumerate()
+                .map(|(k, part)| match rng.below(10) {
+                    0..=3 => format!("%{}", ["a", "b", "c"][k.min(2)]),
+                    4..=7 => {
+                        if part.starts_with('%') {
+                            format!("%{}", ["a", "b", "c"][k.min(2)])
+                        } else {
+                            part.to_string()
+                        }
+                    }
+                    _ => rng.pick(&["0.25", "0.5"]).to_string(),
+                })
+                .collect();
+            let name = &head[..open];
+            let hq: Vec<String> = qubits
+                .iter()
+                .map(|q| if rng.chance(1, 2) || !q.chars().all(|c| c.is_ascii_digit()) { "q".to_string() } else { q.to_string() })
+                .collect();
+            return format!("DEFCAL {mods}{name}({}) {}", parts.join(","), hq.join(" "));
+        }
         let np = match rng.below(10) {
             0..=3 => "%t".to_string(),
             4..=5 => p.to_string(),
